@@ -177,6 +177,25 @@ R["C11"] = {"harnesses": [
     "assumptions": ["the JSON text null (decodes to an empty patch) is outside the stated domain", "duplicated members are asserted only when both copies fall in the same accept/reject class (here: path duplicated with the same string)"],
     "outside_bound": ["more than 2 elements", "op strings of other lengths, non-letter op strings"]}
 
+TN_ESC = {"escdocs": 1, "atommask": 1025, "kmask0": 17, "maxtok": 1, "tokmask": 33, "nvals": 2, "shapemask": 0}
+TN_PLAIN = {"escdocs": 0, "atommask": 0, "kmask0": 63, "maxtok": 1, "tokmask": 1, "nvals": 2, "shapemask": 8218}
+R["C15"] = {"harnesses": [
+    H("H_Escape", [{"natoms": 1, "atommask": 2047}], [{"natoms": 1, "atommask": 2047}, {"natoms": 2, "atommask": 1343}], ["escape/on", "escape/off", "escape/end"],
+      "4 document shapes carrying strings (values and member names, top level, nested, inside arrays) of natoms atoms from the escape alphabet: any printable ASCII byte (symbolic: covers <, >, &), escaped quote, escaped backslash, \\u001f, raw U+2028, raw U+2029, \\u2028, raw non-BMP, lone-surrogate escape, \\n, \\u003c; 6 patches (empty, add elsewhere, copy/move of the string, add of a value carrying such a string, copy of the whole document); EscapeHTML on/off; indent of 1-2 bytes from space/tab"),
+    H("H_TestNeutral", [TN_ESC, TN_PLAIN], [dict(TN_ESC, atommask=2047, kmask0=63, maxtok=2), dict(TN_PLAIN, maxtok=2, shapemask=8191)], ["testneutral/end"],
+      "one operation plus one PASSING test (value = the current value at a chosen path, before or after the operation) vs the operation alone: byte-identical output; EscapeHTML on/off; documents with <, >, & in strings"),
+    H("H_Apply", [AP_K1_SMALL], [AP_K1, AP_K2_FLAT], ["apply/end"], "the C01 family: output parses and is well-formed"),
+    H("H_Merge", MERGE_Q, None, ["merge/end"], "MergePatch outputs parse"),
+    H("H_MergeMerge", [MM_Q[0]], None, ["mm/end"], "MergeMergePatches outputs parse"),
+    H("H_Create", [{"m": 1, "vals": 65535}], None, ["create/end"], "CreateMergePatch outputs parse"),
+    H("H_Bytes_ApplyDoc", ns(0, 3), ns(0, 5), ["bytes/applydoc/wellformed"], "every successful Apply on n arbitrary document bytes returns a well-formed text"),
+    H("H_Bytes_ApplyOpts", ns(0, 3), ns(0, 5), ["bytes/applyopts/end"], "same for ApplyIndentWithOptions with symbolic options"),
+    H("H_Bytes_Merge", ns(0, 3), ns(0, 5), ["bytes/merge/wellformed"], "merge outputs on arbitrary bytes are well-formed")],
+    "anchors": ["internal/json.MarshalEscaped", "(*github.com/evanphx/json-patch/v5.partialDoc).TrustMarshalJSON", "internal/json.compact", "internal/json.Indent", "(github.com/evanphx/json-patch/v5.Patch).ApplyIndentWithOptions", "(github.com/evanphx/json-patch/v5.Patch).test"],
+    "assumptions": ["narrowing (DESIGN appendix A): with EscapeHTML off, 'introduces no escapes' is asserted unless a member NAME contains a raw U+2028/U+2029 (the string encoder escapes these two unconditionally when it re-spells a name)",
+                    "Apply on the empty document: open known finding KF-empty-doc"],
+    "outside_bound": ["strings of more than 2 atoms", "invalid UTF-8 input (the property is stated for UTF-8 input)"]}
+
 if __name__ == "__main__":
     json.dump(R, open(os.path.join(V, "harness", "registry.json"), "w"), indent=1)
     print("registry:", sorted(R))
